@@ -246,8 +246,8 @@ def arrays(node):
         if node.get("unit"):
             v[0, 0] = 1
             v = (v / np.linalg.norm(v)).astype(DT[dt])
-            return {"vec": v, "beta": 2.0}
-        return {"vec": v, "beta": float(node.get("beta", 2.0))}
+            return {"vec": v, "beta": as_scalar(node.get("beta", 2.0))}  # (a complex beta with |1 - beta| = 1: unitary, not Hermitian)
+        return {"vec": v, "beta": as_scalar(node.get("beta", 2.0))}
     if k == "Kernel":
         n1, n2, d = node["n1"], node["n2"], node.get("d", 2)
         rng = rng_for("kernel", node["seed"], n1, n2, d, dt)
